@@ -7,6 +7,9 @@ from concurrent.futures import ThreadPoolExecutor
 
 V = "/verif"
 PROPS = [f"C{i:02d}" for i in range(1, 21)]
+PROPS_ENV = os.environ.get("PROPS")
+if PROPS_ENV:
+    PROPS = PROPS_ENV.split(",")
 PY = "/venv/bin/python" if os.path.exists("/venv/bin/python") else "python3"
 
 
@@ -48,7 +51,8 @@ def main():
         m["analysis_error_in"] = err
         own = m["property"]
         m["detected_by_own_property_check"] = own in hit
-        json.dump(m, open(mp, "w"), indent=1)
+        if not PROPS_ENV:
+            json.dump(m, open(mp, "w"), indent=1)
         flag = "OK " if own in hit else ("err" if own in err else "MISS")
         if own not in hit:
             missed.append(name)
